@@ -39,6 +39,13 @@ theorem dispatch_throws :
     Gen.Dispatch.defaultThrows = true ∧ Gen.Dispatch.vectorLenThrows = true ∧ Gen.Dispatch.indexRangeThrows = true ∧
     Gen.Dispatch.uncheckedTokenAccess = false ∧ Gen.Dispatch.nextLineChecked = true := by decide
 
+/-- the entry points hand the parsed components to the model constructors in the order the model assumes
+    (S, A, T, R, discount / O, W, S, A, T, R, discount) -/
+theorem dispatch_entry_points :
+    Gen.Dispatch.mdpBinding = ["S", "A", "T", "R", "discount"] ∧ Gen.Dispatch.mdpCtorArgs = ["S", "A", "T", "R", "discount"] ∧
+    Gen.Dispatch.pomdpBinding = ["S", "A", "O", "T", "R", "W", "discount"] ∧
+    Gen.Dispatch.pomdpCtorArgs = ["O", "W", "S", "A", "T", "R", "discount"] := by decide
+
 /-! ## parser_total -/
 
 /-- The operational model is a total function into `Except`: token, line and next-line accesses are all
@@ -736,6 +743,24 @@ theorem parseCassandra_rows_valid {fl : Flags} {tol : Rat} {k : Kind} {text : St
   unfold rowsOK at hT
   simp only [List.all_eq_true, List.mem_range] at hT
   exact isProbability_sound tol _ (hT d1 h1 a h2)
+
+/-- **The property in one statement (source with the `throw` in place).**  If an entry point accepts a text, then the text is a
+    well-formed file of the supported grammar, the constructed tables are exactly the ones its statements define, every transition
+    (and observation) row is a probability vector up to the library tolerance, and the discount passed `setDiscount`. -/
+theorem parseCassandra_sound {fl : Flags} (hfl : fl.rowLenThrows = true) {tol : Rat} {k : Kind} {text : Str} {r : Parsed}
+    (h : parseCassandra fl tol k text = .ok r) :
+    (∃ lines sT sR sW, parseModelInfo (splitLines text) {} [] = .ok (r.pre, lines) ∧
+      FileDenotes k r.pre lines 0 sT sR sW ∧
+      ∀ d1 a d3,
+        tableAt r.st.wT d1 a d3 = specAt sT r.pre.S r.pre.A r.pre.S d1 a d3 ∧
+        tableAt r.st.wR d1 a d3 = specAt sR r.pre.S r.pre.A r.pre.S d1 a d3 ∧
+        tableAt r.st.wW d1 a d3 = specAt sW r.pre.S r.pre.A r.pre.O d1 a d3) ∧
+    discountRejected r.pre.disc = false ∧
+    rowsOK tol r.st.wT r.pre.S r.pre.A r.pre.S = true ∧
+    (k = .pomdp → rowsOK tol r.st.wW r.pre.S r.pre.A r.pre.O = true) := by
+  obtain ⟨hp, hd, hT, hW⟩ := parseCassandra_ok_valid h
+  obtain ⟨lines, sT, sR, sW, hpre, _, _, _, hfile, htab⟩ := parser_accepts_only_wellformed hfl hp
+  exact ⟨⟨lines, sT, sR, sW, hpre, hfile, htab⟩, hd, hT, hW⟩
 
 /-! ## the hypotheses are satisfiable: concrete non-trivial instances (kernel-evaluated tests) -/
 
